@@ -15,10 +15,10 @@
 EXTENDS MC_GridSystem
 CONSTANTS MaxLen
 VARIABLES hist, pick, cand
-gvars == <<vars, hist, pick, cand>>
+gvars == <<vars, hist, pick, cand, calls>>
 NoPick == <<"", 0>>
 Weight == [NewAngular |-> 2, NewGrid |-> 1, NewGridFrom |-> 2, SetPoints |-> 1, SetWeights |-> 2, Edit |-> 5,
-           Query |-> 3, GetItem |-> 1, NewAtom |-> 3, GetShell |-> 1, NewMol |-> 3, GetAtomic |-> 3, MolItem |-> 2,
+           Query |-> 3, GetItem |-> 2, NewAtom |-> 3, GetShell |-> 2, NewMol |-> 3, GetAtomic |-> 3, MolItem |-> 3,
            Integrate |-> 2, Drop |-> 2, Reject |-> 1]
 Picks == UNION {{<<ActNames[k_], j_>> : j_ \in 1..Weight[ActNames[k_]]} : k_ \in 1..Len(ActNames)}
 GSlots == Live(S)
@@ -41,13 +41,13 @@ ActsOf(c_) ==
       [] c_ = "Drop"        -> {<<c_, i_>> : i_ \in GSlots}
       [] c_ = "Reject"      -> {<<c_, i_, kd_>> : i_ \in GSlots, kd_ \in RejectKinds}
 Short(a_) == IF a_[1] = "Query" THEN <<a_[1], a_[2], a_[3], a_[4]>> ELSE a_
-Scenarios == 0..3
+Scenarios == {0, 0, 1, 2, 3, 5, 6}
 GInit == \E sc_ \in Scenarios :
             LET r == RunSeq(S0, PrefixOf(sc_), 1)
             IN /\ heap = r.s.heap /\ cache = r.s.cache /\ objs = r.s.objs /\ obs = r.obs
-               /\ hist = [k_ \in 1..Len(PrefixOf(sc_)) |-> Short(PrefixOf(sc_)[k_])] /\ pick = NoPick /\ cand = <<>>
+               /\ hist = [k_ \in 1..Len(PrefixOf(sc_)) |-> Short(PrefixOf(sc_)[k_])] /\ pick = NoPick /\ cand = <<>> /\ calls = 0
 GNext ==
-    /\ Len(hist) < MaxLen
+    /\ Len(hist) < MaxLen /\ UNCHANGED calls
     /\ \/ /\ pick = NoPick /\ pick' \in Picks /\ UNCHANGED <<vars, hist, cand>>
        \/ /\ pick # NoPick /\ cand = <<>>
           /\ IF \E a_ \in ActsOf(pick[1]) : En(S, a_)
